@@ -2,6 +2,7 @@ package main
 
 import (
 	"github.com/bluenviron/mediacommon/v2/pkg/codecs/h264"
+	"github.com/bluenviron/mediacommon/v2/pkg/codecs/h265"
 )
 
 // H264 with frame reordering (PTS != DTS) for the muxer slice: a GOP pattern taken from mediacommon's own
@@ -66,4 +67,82 @@ func bfPlan(base int64, n int) (pts, dts []int64, ok bool) {
 		dts = append(dts, d)
 	}
 	return pts, dts, true
+}
+
+// H265 with frame reordering: mediacommon's h265 DTS-extractor test vector "with timing info, IDR"
+// (sps_max_num_reorder_pics > 0, VUI timing info: the extractor parses the slice headers). Decode order
+// I P b b P b b; the payload id is appended after the original NALU bytes.
+
+var bf5VPS = []byte{
+	0x40, 0x01, 0x0c, 0x01, 0xff, 0xff, 0x01, 0x60, 0x00, 0x00, 0x03, 0x00, 0x90, 0x00, 0x00, 0x03,
+	0x00, 0x00, 0x03, 0x00, 0x78, 0x99, 0x98, 0x09,
+}
+
+var bf5SPS = []byte{
+	0x42, 0x01, 0x01, 0x01, 0x60, 0x00, 0x00, 0x03, 0x00, 0x90, 0x00, 0x00, 0x03, 0x00, 0x00, 0x03,
+	0x00, 0x78, 0xa0, 0x03, 0xc0, 0x80, 0x10, 0xe5, 0x96, 0x66, 0x69, 0x24, 0xca, 0xe0, 0x10, 0x00,
+	0x00, 0x03, 0x00, 0x10, 0x00, 0x00, 0x03, 0x01, 0xe0, 0x80,
+}
+
+var bf5PPS = []byte{0x44, 0x1, 0xc1, 0x72, 0xb4, 0x62, 0x40}
+
+var bf5Pattern = []bfFrame{
+	{[]byte{0x26, 0x1, 0xaf, 0x8, 0x42, 0x23, 0x48, 0x8a, 0x43, 0xe2}, 0},
+	{[]byte{0x02, 0x01, 0xd0, 0x19, 0x5f, 0x8c, 0xb4, 0x42, 0x49, 0x20, 0x40, 0x11, 0x16, 0x92, 0x93, 0xea, 0x54, 0x57, 0x4e, 0x0a}, 9000},
+	{[]byte{0x02, 0x01, 0xe0, 0x44, 0x97, 0xe0, 0x81, 0x20, 0x44, 0x52, 0x62, 0x7a, 0x1b, 0x88, 0x0b, 0x21, 0x26, 0x5f, 0x10, 0x9c}, 6000},
+	{[]byte{0x00, 0x01, 0xe0, 0x24, 0xff, 0xfa, 0x24, 0x0a, 0x42, 0x25, 0x8c, 0x18, 0xe6, 0x1c, 0xea, 0x5a, 0x5d, 0x07, 0xc1, 0x8f}, 3000},
+	{[]byte{0x02, 0x01, 0xd0, 0x30, 0x97, 0xd7, 0xdc, 0xf9, 0x0c, 0x10, 0x11, 0x11, 0x20, 0x42, 0x11, 0x18, 0x63, 0xa5, 0x18, 0x55}, 18000},
+	{[]byte{0x02, 0x01, 0xe0, 0xa2, 0x25, 0xd7, 0xf7, 0x08, 0x12, 0x04, 0x45, 0xa1, 0x83, 0xc0, 0x97, 0x53, 0xa3, 0x5e, 0x78, 0x14}, 15000},
+	{[]byte{0x00, 0x01, 0xe0, 0x82, 0x3f, 0x5f, 0xf6, 0x89, 0x02, 0x90, 0x88, 0xa3, 0x0c, 0x7d, 0x27, 0x0c, 0xd4, 0xd9, 0xc2, 0xa5}, 12000},
+}
+
+const bf5GOPTicks = 21000
+
+func bf5BuildAU(par int, k int, pay int) [][]byte {
+	var au [][]byte
+	if par != 0 {
+		au = append(au, bf5VPS, bf5SPS, bf5PPS)
+	}
+	f := bf5Pattern[k%len(bf5Pattern)]
+	au = append(au, append(append([]byte{}, f.hdr...), idBytes(pay, 0)...))
+	return au
+}
+
+func bf5Plan(base int64, n int) (pts, dts []int64, ok bool) {
+	ex := &h265.DTSExtractor{}
+	ex.Initialize()
+	for i := 0; i < n; i++ {
+		k := i % len(bf5Pattern)
+		g := int64(i / len(bf5Pattern))
+		p := base + g*bf5GOPTicks + bf5Pattern[k].ptsMs
+		par := 0
+		if k == 0 {
+			par = 1
+		}
+		d, err := ex.Extract(bf5BuildAU(par, k, i+1), p)
+		if err != nil {
+			return nil, nil, false
+		}
+		if i > 0 && d <= dts[i-1] {
+			return nil, nil, false // the harness needs increasing decode times
+		}
+		pts = append(pts, p)
+		dts = append(dts, d)
+	}
+	return pts, dts, true
+}
+
+// per-codec access to the reordering patterns
+func bfPatternLen(codec string) int {
+	if codec == "h265" {
+		return len(bf5Pattern)
+	}
+	return len(bfPattern)
+}
+
+func bfBuildAUFor(codec string, par, k, pay int) [][]byte {
+	if codec == "h265" {
+		return bf5BuildAU(par, k, pay)
+	}
+	return bfBuildAU(par, k, pay)
 }
